@@ -336,17 +336,58 @@ def norm_loops(ctx, name, table):
             if ph.ty.is_fp:
                 roles['w'] = ph.res
                 return dom.sym('W', real=True, nonnegative=True)
+            if ph.ty.is_ptr:
+                # cursor form: for (k = n, q = p; k; --k, ++q) ... *q
+                roles['q'] = ph.res
+                return Ptr('p', 8 * dom.sym('i', integer=True, nonnegative=True))
             roles['i'] = ph.res
-            return dom.sym('i', integer=True, nonnegative=True)
+            return dom.sym('k' if any(x.ty.is_ptr for x in ph.block.instrs if x.op == 'phi') else 'i', integer=True, nonnegative=True)
         tx = looptx.transformer(fn, lookup_in([fn.module]), args, dom, bind1, loop=(l1[0], l1[1], l1[2]))
         i, W = tx.sym[roles['i']], tx.sym[roles['w']]
         el = sp.Abs(dom.sym('p[8*i]', real=True))
         probs = []
         step = c if strided else 1
+
+        def advance(tx_, roles_, nv_, idx, what):
+            out = []
+            if 'q' in roles_:
+                q2 = nv_[roles_['q']]
+                if not (isinstance(q2, Ptr) and q2.base == 'p' and alg.is_zero(sp.sympify(q2.off) - 8 * idx - 8 * step)):
+                    out.append('%s cursor advances to %r' % (what, q2))
+                kk = tx_.sym[roles_['i']]
+                if not alg.is_zero(nv_[roles_['i']] - kk + 1):
+                    out.append('%s count becomes %s' % (what, nv_[roles_['i']]))
+                q0 = tx_.init[roles_['q']]
+                if not (isinstance(q0, Ptr) and q0.base == 'p' and alg.is_zero(sp.sympify(q0.off))):
+                    out.append('%s cursor starts at %r' % (what, q0))
+                if not alg.is_zero(sp.sympify(tx_.init[roles_['i']]) - (n if not strided else tx_.init[roles_['i']])):
+                    out.append('%s count starts at %s' % (what, tx_.init[roles_['i']]))
+            else:
+                if not alg.is_zero(nv_[roles_['i']] - idx - step):
+                    out.append('%s index advances by %s' % (what, sp.expand(nv_[roles_['i']] - idx)))
+                if not alg.is_zero(sp.sympify(tx_.init[roles_['i']])):
+                    out.append('%s index starts at %s' % (what, tx_.init[roles_['i']]))
+            return out
+
+        def guarded(pc, roles_, tx_, idx, what):
+            # the iteration runs under idx < n*step (or !=), cursor form under count != 0; either spelling
+            bound = n * step
+            for cc in pc:
+                if not isinstance(cc, alg.Cond):
+                    continue
+                d = sp.expand(sp.sympify(cc.a) - sp.sympify(cc.b))
+                r = cc.rel()
+                if 'q' in roles_:
+                    kk = tx_.sym[roles_['i']]
+                    if (alg.is_zero(d - kk) and r in ('!=', '>')) or (alg.is_zero(d + kk) and r in ('!=', '<')):
+                        return []
+                elif (alg.is_zero(d - (idx - bound)) and r in ('<', '!=')) or (alg.is_zero(d - (bound - idx)) and r in ('>', '!=')):
+                    return []
+            return ['%s loop is not guarded by %s' % (what, 'count != 0' if 'q' in roles_ else 'index < %s' % bound)]
         saw_update = saw_keep = False
         for s1, nv in tx.backs:
-            if not alg.is_zero(nv[roles['i']] - i - step):
-                probs.append('index advances by %s' % sp.expand(nv[roles['i']] - i))
+            probs += advance(tx, roles, nv, dom.sym('i', integer=True, nonnegative=True), 'first')
+            probs += guarded(s1.pc, roles, tx, dom.sym('i', integer=True, nonnegative=True), 'first')
             w2 = sp.sympify(nv[roles['w']])
             if w2 == el:
                 saw_update = True
@@ -367,8 +408,11 @@ def norm_loops(ctx, name, table):
             if ph.ty.is_fp:
                 roles2['s'] = ph.res
                 return dom.sym('Sacc', real=True)
+            if ph.ty.is_ptr:
+                roles2['q'] = ph.res
+                return Ptr('p', 8 * dom.sym('j', integer=True, nonnegative=True))
             roles2['i'] = ph.res
-            return dom.sym('j', integer=True, nonnegative=True)
+            return dom.sym('k' if any(x.ty.is_ptr for x in ph.block.instrs if x.op == 'phi') else 'j', integer=True, nonnegative=True)
         # start behind loop 1 on the exit that continues to loop 2 (w > 0)
         done = False
         for s_ex, b_ex, p_ex in tx.exits:
@@ -382,15 +426,15 @@ def norm_loops(ctx, name, table):
                 continue
         if not done:
             raise Unsupported('could not enter the second loop')
-        j, S = tx2.sym[roles2['i']], tx2.sym[roles2['s']]
+        j, S = dom.sym('j', integer=True, nonnegative=True), tx2.sym[roles2['s']]
         if len(tx2.backs) != 1:
             raise Unsupported('second loop has %d back paths' % len(tx2.backs))
         s2, nv2 = tx2.backs[0]
         pj = dom.sym('p[8*j]', real=True)
         if not alg.is_zero(sp.simplify(nv2[roles2['s']] - (S + (pj / W) ** 2))):
             probs.append('sum update %s, expected s + (p[j]/w)^2' % nv2[roles2['s']])
-        if not alg.is_zero(nv2[roles2['i']] - j - step):
-            probs.append('second index advances by %s' % sp.expand(nv2[roles2['i']] - j))
+        probs += advance(tx2, roles2, nv2, j, 'second')
+        probs += guarded(s2.pc, roles2, tx2, j, 'second')
         fin = tx2.finals or []
         if not any(r is not None and alg.is_zero(sp.simplify(sp.sympify(r) - sp.sqrt(S) * W)) for s_, r in fin):
             probs.append('does not return sqrt(s)*w')
